@@ -166,8 +166,10 @@ fn main() {
         let n_pref = alpha.count_upto(2);
         let streams: Vec<(u32, u32)> = if rich { vec![(96, 62), (48, 125), (24, 250), (150, 40)] } else { vec![(96, 62), (48, 125)] };
         let presets = [DiffPreset::D0, DiffPreset::D4, DiffPreset::D5, DiffPreset::D6, DiffPreset::D7, DiffPreset::D8, DiffPreset::D1, DiffPreset::D2];
-        let jitters: u64 = if rich { 12 } else { 5 };
-        let total = n_pref * streams.len() as u64 * presets.len() as u64 * jitters;
+        let jitters: u64 = if rich { 12 } else { 3 };
+        // stream styles: plain / with finish + clap sounds / overlapping the prefix object in time
+        let styles: Vec<u8> = if rich { vec![0, 1, 2, 3, 6] } else { vec![0, 2, 1] };
+        let total = n_pref * streams.len() as u64 * presets.len() as u64 * jitters * styles.len() as u64;
         let name = format!("dense/osu/prefix<=2+stream/{}cases", total);
         let all_keys: Vec<ModSpec> = key_mods(true);
         let body = |idx: u64, l: &mut Local<'_>| {
@@ -176,8 +178,10 @@ fn main() {
             let stream = streams[(r % streams.len() as u64) as usize];
             r /= streams.len() as u64;
             let diff = presets[(r % presets.len() as u64) as usize];
-            let jitter = (r / presets.len() as u64) as u8;
-            let spec = MapSpec { diff, stream, jitter, ..MapSpec::new(0, alpha.seq(pi, 2)) };
+            r /= presets.len() as u64;
+            let jitter = (r % jitters) as u8;
+            let stream_style = styles[(r / jitters) as usize];
+            let spec = MapSpec { diff, stream, jitter, stream_style, ..MapSpec::new(0, alpha.seq(pi, 2)) };
             if l.want_sample() {
                 let mut o = J::obj();
                 o.set("universe", J::s(l.universe));
